@@ -195,7 +195,7 @@ prop(
     "every partition) is checked by porcupine against a presence+value register model (nondeterministic for bounded caches without LRU, where a Set may be refused). Every Stats snapshot is checked against the bounds, the hook's structural "
     "invariants and Hit/Miss at quiescence; long stress runs add race/bounds/integrity observation without history. A history is one case; non-trivial histories are those with overlapping operations on a key (counted)",
     [st("lin", "c10", "TestLinearizable", race=True, timeout_q=900, timeout_t=3000), st("stress", "c10", "TestStress", race=True, timeout_q=900, timeout_t=3000)],
-    floors=[dict(stage="lin", key="histories_with_overlapping_ops_on_a_key", min=10000), dict(stage="lin", key="evictions_observed", min=10000), dict(stage="lin", key="porcupine_ok", min=14000), dict(stage="stress", key="stress_operations", min=500_000)],
+    floors=[dict(stage="lin", key="histories_with_overlapping_ops_on_a_key", min=5000), dict(stage="lin", key="evictions_observed", min=10000), dict(stage="lin", key="porcupine_ok", min=14000), dict(stage="stress", key="stress_operations", min=500_000)],
     assumptions=["the Go scheduler is not controllable: reach comes from many short histories, barriers, yields and the race detector's happens-before analysis", "Clear is checked per key (copied into every partition), which is sound but weaker than global atomicity"],
 )
 
